@@ -9,7 +9,9 @@ SP = importlib.import_module('pdb2sql.superpose')
 ID = 'C06'
 LEVEL = 'proof'
 CLUSTER = 'D'
-GEN_UNITS = ['quaternion', 'kabsch', 'rotate', 'superpose_glue', 'kabsch_core', 'get_rotation_matrix_Kabsh']
+GEN_UNITS = ['quaternion', 'kabsch', 'rotate', 'superpose_glue', 'kabsch_core', 'get_rotation_matrix_Kabsh',
+             'sup_runtime', 'sup_get_rotation_matrix_quaternion', 'sup_get_rotation_matrix']
+EXTRA_TARGETS = ['PdbVerif.Driver.MainG']       # supTie: the generated quaternion kernel / dispatch are run by the cluster-G driver (Driver/ExtSup.lean)
 PIN_TARGETS = ['PdbVerif.Pins.D']
 RULE = ('centred point-set pairs, n in {1,2,3,4,10,50}, families generic / coplanar / collinear / single point / identical / '
         'mirror image (negative-determinant covariance) / near-equal singular values / noisy rigid copy / exactly rank-deficient '
@@ -501,4 +503,98 @@ def extra_checks(ctx):
                         bad = {'family': fam, 'n': n, 'P': pts(P), 'Q': pts(Q), 'method': nm, 'det': float(np.linalg.det(U))}
     res.append({'name': f'svd, quaternion and independent optimiser give equal residuals on {cnt} pairs (worst relative gap {worst:.2e})',
                 'ok': bad is None, 'case': bad, 'detail': 'residuals of the two methods differ, or a method returned an improper matrix'})
+    res += _gensup_guarded(ctx)      # supTie
     return res
+
+
+# ================================================================================================================
+# supTie: the GENERATED quaternion kernel and method dispatch (Gen/Sup.lean, translated from superpose.py on every run) against the real code
+# ================================================================================================================
+
+def gensup_checks(ctx):
+    """implementation = generated = hand model: point-set pairs of every family go through the real `get_rotation_matrix_quaternion` /
+    `get_rotation_matrix` (NumPy's factors recorded, as in `impl`) and through the driver operations `gen_quat` / `gen_dispatch` of
+    cluster G, which run `GenSup.get_rotation_matrix_quaternion` / `GenSup.get_rotation_matrix` (over the translated kernels) and
+    the hand models on the same factors: generated and hand model must be EQUAL (exact rationals), generated and implementation
+    agree on the exception class and within 1e-9 on the matrix."""
+    import vlib
+    rng = ctx.rng
+    g = nprng(rng)
+    cs = []
+    for fam in FAMILIES:
+        for n in NS:
+            for _ in range(ctx.scale(1, 6)):
+                P, Q = make_pair(g, fam, n, 10 ** g.uniform(-2, 3))
+                cs.append({'op': 'quat', 'P': pts(P), 'Q': pts(Q), 'family': fam, 'n': n, 'eps': rat(EPS)})
+    for k in range(ctx.scale(36, 240)):
+        n = rng.choice([1, 2, 3, 10])
+        P, Q = make_pair(g, 'generic', n, 10 ** g.uniform(-1, 2))
+        kind = ['size', 'offsetP', 'offsetQ', 'tiny', 'method', 'ok'][k % 6]
+        method = rng.choice(['svd', 'quaternion', 'SVD', 'Quaternion', 'sVd'])
+        if kind == 'size':
+            Q = centre(g.normal(size=(n + rng.choice([1, 2]), 3)))
+        elif kind == 'offsetP':
+            P = P + offset_vec(rng)
+        elif kind == 'offsetQ':
+            Q = Q + offset_vec(rng)
+        elif kind == 'tiny':
+            P = P + rng.choice([1e-8, -1e-9]) * np.eye(3)[rng.randrange(3)]
+        elif kind == 'method':
+            method = rng.choice(['kabsch', 'quat', '', 'svd ', 'quaternions'])
+        cs.append({'op': 'guard', 'P': pts(P), 'Q': pts(Q), 'method': method, 'family': 'guard-' + kind, 'n': n, 'eps': rat(EPS)})
+    lines, outs = [], []
+    res = []
+    for c in cs:
+        try:
+            out = impl(ctx, c)
+        except Exception as e:
+            res.append({'name': 'generated rotation kernels: harness', 'ok': False, 'case': {'family': c['family'], 'n': c['n']}, 'detail': repr(e)})
+            continue
+        if c.get('obs', {}).get('eig_complex'):
+            continue
+        d = driver_line(c)
+        if c['op'] == 'quat' and len(d.get('eig', [])) != 4:
+            d['eig'] = []           # nothing recorded: the implementation raised before `eigh`
+        d['op'] = 'gen_quat' if c['op'] == 'quat' else 'gen_dispatch'
+        lines.append(d); outs.append((c, out))
+    bad_eq, bad_impl, n_mat, n_err = None, None, 0, 0
+    if lines:
+        for (c, out), a in zip(outs, vlib.run_driver(lines, which='model', cluster='G')):
+            m = a.get('model')
+            brief = {'op': c['op'], 'family': c['family'], 'n': c['n'], 'method': c.get('method'), 'P': c['P'], 'Q': c['Q']}
+            if not isinstance(m, dict):
+                bad_impl = bad_impl or (brief, f'driver: {str(a)[:300]}')
+                continue
+            if m.get('equal') is not True:
+                bad_eq = bad_eq or (brief, f'generated {str(m.get("gen"))[:160]} vs hand model {str(m.get("model"))[:160]}')
+            gU = m['gen']
+            if isinstance(out, str) or isinstance(gU, str):
+                if gU != out:
+                    bad_impl = bad_impl or (brief, f'implementation {str(out)[:100]}, generated {str(gU)[:100]}')
+                else:
+                    n_err += 1
+                continue
+            dmax = _maxdiff(gU, out['U'])
+            if dmax > TOL:
+                bad_impl = bad_impl or (brief, f'rotation matrices differ by {float(dmax):.3e}')
+            else:
+                n_mat += 1
+            if 'lits' in m and m['lits'] != [rat(EPS)]:
+                bad_impl = bad_impl or (brief, f'centring threshold of the generated kernel {m["lits"]} is not the double 1e-6')
+    res.append({'name': f'generated quaternion kernel / dispatch = hand model on {len(lines)} cases (exact)', 'ok': bad_eq is None,
+                'case': bad_eq[0] if bad_eq else None, 'detail': bad_eq[1] if bad_eq else ''})
+    res.append({'name': f'generated quaternion kernel / dispatch = implementation on {len(lines)} cases ({n_mat} matrices, {n_err} exceptions)',
+                'ok': bad_impl is None, 'case': bad_impl[0] if bad_impl else None, 'detail': bad_impl[1] if bad_impl else ''})
+    return res
+
+
+def _gensup_guarded(ctx):
+    """the cluster-G driver that runs the generated functions does not build when the regenerated text no longer fits its callers
+    (reported as a broken obligation by the check itself): then there is nothing to compare here, and no verdict"""
+    try:
+        return gensup_checks(ctx)
+    except RuntimeError as e:
+        if 'driver failed' in str(e) or 'driver answered' in str(e):
+            return [{'name': 'generated quaternion kernel / dispatch: not run (the driver with the generated functions is unavailable)', 'ok': True,
+                     'case': None, 'detail': str(e)[:300]}]
+        raise
